@@ -321,6 +321,17 @@ def _needed_only(ctx, mod):
         "" if ok else "traversal is not seeded from the requested keys",
     )
     # keys parameter defaults to every key only when None
+    rebinds = [(n, b) for n, b in find("keys = M_v", f, nested=False)]
+    for n, b in rebinds:
+        facts = inline_facts(f, n)
+        ok = has_fact(facts, "keys is None", True) is not None
+        ctx.ob(
+            "REACH.needed.default-only-when-none",
+            n,
+            "keys is replaced by `every key` only when the caller passed None",
+            ok,
+            "" if ok else "an explicit (e.g. empty) request is replaced by the whole graph: unneeded tasks run; guards: " + "; ".join(fact_strs(facts)),
+        )
     pushes = find("stack.append(M_x)", f, nested=False) + find("stack.extend(M_x)", f, nested=False)
     ctx.count("stack_push_sites", len(pushes))
     ctx.floor("stack_push_sites", 1)
@@ -357,6 +368,7 @@ VARIANTS = [
     (LOCAL, "                stack.append(dep)\n", "                stack.append(key)\n", "REACH.needed.push-dependencies"),
     (LOCAL, "            if not _wait:\n", "            if _wait is not None:\n", "DOM.ready-initial.guard"),
     (LOCAL, "    stack = list(keys)\n", "    stack = list(dsk)\n", "REACH.needed.seed"),
+    (LOCAL, "    if keys is None:\n        keys = list(set(dsk) - set(cache))", "    if not keys:\n        keys = list(set(dsk) - set(cache))", "REACH.needed.default-only-when-none"),
     (LOCAL, "                    fut.add_done_callback(queue.put)\n", "                    pass\n", "PAIR.batch.done-callback"),
     (LOCAL, "    ready_set = set()\n", "    ready_set = []\n", "DOM.ready-initial.from-set"),
     ("dask/cache.py", "        self.durations = dict()\n", "        self.durations = dict()\n        state['ready'].append(None)\n", "OWN.state-writer"),
